@@ -568,6 +568,11 @@ class Check:
             self.broken_obligation("coq-build", _tail_err(out))
         return allok
 
+    def sub_rng(self, name):
+        """an independent, reproducible random stream for one stage of a check (derived from the seed and the stage name), so that adding or
+        changing one stage does not shift the cases every later stage generates"""
+        return random.Random("%s/%s/%s" % (self.seed, self.pid, name))
+
     def broken_obligation(self, what, detail):
         """A proof obligation / correspondence no longer checks and no failing input is (yet) known."""
         self._pending_broken = getattr(self, "_pending_broken", [])
@@ -699,7 +704,7 @@ def correspond(chk, cases, model_exe, impl_exe, oracle=None, what="", nontrivial
     i_out, i_err = run_sharded(impl_exe, lines, timeout=timeout, env=env)
     # compare=False: oracle-only exploration (no second executable to compare with)
     m_out, m_err = run_sharded(model_exe, lines, timeout=timeout) if compare else (i_out, [])
-    mism = orf = 0
+    mism = orf = reported = 0
     for idx, rc, se in i_err:
         # the implementation crashed / sanitizer report: that is a failing input by itself
         orf += 1
@@ -722,9 +727,11 @@ def correspond(chk, cases, model_exe, impl_exe, oracle=None, what="", nontrivial
         bad = oracle(line, io) if oracle else None
         if bad:
             orf += 1
-            if orf <= max_report:
-                chk.violation({"kind": "oracle", "what": what, "case": line, "impl": io, "why": bad},
-                              "%s: property oracle failed on the implementation: %s\n case: %s\n impl: %s" % (what, bad, line[:400], io[:400]))
+            # known findings (violation() returns False for them) do not use up the report budget: they must never hide another violation
+            if reported < max_report:
+                if chk.violation({"kind": "oracle", "what": what, "case": line, "impl": io, "why": bad},
+                                 "%s: property oracle failed on the implementation: %s\n case: %s\n impl: %s" % (what, bad, line[:400], io[:400])):
+                    reported += 1
         if mo != io:
             mism += 1
             if mism <= max_report:
